@@ -1,11 +1,161 @@
-(* C21 — dynamic state sync hands over to normal operation consistently (theorems below). *)
+(* C21 — dynamic state sync hands over to normal operation consistently.  Property theorems only.
+
+   Objects (Model/Snow.v): the consensus-wrapper model [step] (snow.VM / StatefulBlock /
+   statesync.go / health.go) driven by engine calls [ops]; [erun] runs the model and the engine's own
+   bookkeeping [estate] together and fails as soon as a call violates the snowman call contract
+   [eguard] ([engine_ok ops] = the run does not fail).  While the VM is not ready Verify/Accept are
+   vacuous (blocks are only indexed / remembered); [OFinishSync t] is FinishStateSync at target t:
+   reprocess the accepted chain from t to the tip, then verifyProcessingBlocks, then register the
+   unresolved-blocks health check.
+
+   [good es b] (Proofs/Snow_proofs.v): b is processing and b and all its processing ancestors up to
+   the engine's last accepted block are valid.  [exec_chain t l]: VerifyBlock + AcceptBlock callbacks
+   executing the blocks l on top of t.  [e_sync es]: the blocks accepted since (and including) the
+   sync target, oldest first.  [Finished es st' u] (Proofs/Handover_proofs.v): the record of facts
+   about the state after the hand-over used below.
+
+   KNOWN FINDING (finish-fails-not-found-while-a-processing-block-has-a-rejected-parent): see
+   C21_finish_refuted.  [orphan_free es] = no processing block has a rejected parent; it is the guard
+   of the _partial theorems and excludes exactly that situation.
+
+   Scope of the quantification: ALL op lists that respect the engine contract, with any number of
+   parses / vacuous verifies / accepts / rejects / preference changes / lookups before and after
+   StartStateSync, started from a ready or a not-ready VM, finish at ANY block accepted since the
+   target.  [plain_ops ops]: no BuildBlock and no earlier FinishStateSync call in the history (a
+   verified built block that is re-verified vacuously during sync is outside the proof; a second
+   FinishStateSync is only possible after a failed one, i.e. after the known finding).
+   AcceptedBlockWindowCache >= 1. *)
 From Coq Require Import List NArith Bool.
 Import ListNotations.
-From HV Require Import Model.Snow.
+From HV Require Import Model.Snow Proofs.Snow_proofs Proofs.Handover_proofs.
 Local Open Scope N_scope.
 
+(* FinishStateSync succeeds; the chain callbacks it makes are exactly the execution of the accepted
+   chain from the target to the engine's last accepted block, followed by re-verifications only (no
+   further AcceptBlock); afterwards the VM is ready, its last accepted block is the engine's, with
+   output and accepted state populated, it is the last processed block, and
+   GetLastAccepted/LastAccepted answer with it. *)
+Theorem C21_last_accepted_partial : forall c Q ops t st es tr,
+  1 <= c_W c -> plain_ops ops = true ->
+  erun c Q (init_state c) (init_estate c) ops = Some (st, es, tr) ->
+  eguard Q es (OFinishSync t) = true -> orphan_free es = true ->
+  exists st' evs2,
+    step c st (OFinishSync t) = (st', RUnit, exec_chain t (after t (e_sync es)) ++ evs2) /\
+    accepts evs2 = [] /\ naccepted evs2 = [] /\
+    s_ready st' = true /\
+    obj_of st' (s_last st') = mkO (e_last es) true true /\
+    s_lastproc st' = Some (s_last st') /\
+    step c st' OGetLastProcessed = (st', RId (e_last es), []) /\
+    step c st' OLastAccepted = (st', RId (e_last es), []).
+Proof.
+  intros c Q ops t st es tr HW Hpl HR HG Hof.
+  destruct (handover_finish c Q ops t st es tr HW Hpl HR HG Hof) as (st' & u & evs2 & A & B & C & F).
+  destruct (finished_reads c es st' u F) as (R1 & R2 & _).
+  exists st', evs2. repeat split; try assumption.
+  - exact (f_ready _ _ _ F).
+  - pose proof (f_last_id _ _ _ F). pose proof (f_last_ver _ _ _ F). pose proof (f_last_acc _ _ _ F).
+    destruct (obj_of st' (s_last st')); cbn in *; congruence.
+  - exact (f_lastproc _ _ _ F).
+Qed.
+Print Assumptions C21_last_accepted_partial.
+
+(* Every still-processing block stays in verifiedBlocks on the object the engine verified, and
+   after the hand-over that object is verified (has an output) iff the block is good; the set
+   registered with the health check is exactly the processing blocks that are not good. *)
+Theorem C21_reverify_partial : forall c Q ops t st es tr,
+  1 <= c_W c -> plain_ops ops = true ->
+  erun c Q (init_state c) (init_estate c) ops = Some (st, es, tr) ->
+  eguard Q es (OFinishSync t) = true -> orphan_free es = true ->
+  exists u, let st' := fst (fst (step c st (OFinishSync t))) in
+    s_unres st' = Some u /\
+    (forall b, In b u <-> hasK b (e_proc es) = true /\ ~ good es b) /\
+    (forall b h, lookup b (e_proc es) = Some h ->
+       get_block st' b = Some (BH h) /\ o_id (obj_of st' h) = b /\
+       (o_verified (obj_of st' h) = true <-> good es b)).
+Proof.
+  intros c Q ops t st es tr HW Hpl HR HG Hof.
+  destruct (handover_finish c Q ops t st es tr HW Hpl HR HG Hof) as (st' & u & evs2 & A & B & C & F).
+  exists u. rewrite A. cbn [fst]. split; [exact (f_unres _ _ _ F)|]. split; [exact (f_u _ _ _ F)|].
+  intros b h Hb. destruct (f_procobj _ _ _ F _ _ Hb) as (X & _ & Y).
+  split; [|split; assumption]. unfold get_block. rewrite (f_proc _ _ _ F), Hb. reflexivity.
+Qed.
+Print Assumptions C21_reverify_partial.
+
+(* Health: right after the hand-over the check reports (ready, |u|, healthy iff u = []) where u is
+   the unresolved set of C21_reverify_partial; rejecting unresolved blocks (any of them, in any
+   order) removes exactly those from the set, and once all are rejected the check is healthy;
+   Accept of an unresolved block is refused (errParentFailedVerification) and changes nothing.
+   PARTIAL: the reject/accept clauses are proved for reject sequences directly after the hand-over,
+   not yet for arbitrary interleavings with other normal-operation calls (needs the C20 invariant
+   extended with unresolved blocks). *)
+Theorem C21_health_partial : forall c Q ops t st es tr,
+  1 <= c_W c -> plain_ops ops = true ->
+  erun c Q (init_state c) (init_estate c) ops = Some (st, es, tr) ->
+  eguard Q es (OFinishSync t) = true -> orphan_free es = true ->
+  exists u, let st' := fst (fst (step c st (OFinishSync t))) in
+    (forall b, In b u <-> hasK b (e_proc es) = true /\ ~ good es b) /\
+    step c st' OHealth = (st', RHealth true (Some (lenN u)) (match u with [] => true | _ => false end), []) /\
+    (forall hs, (forall h, In h hs -> exists b, In b u /\ lookup b (e_proc es) = Some h) ->
+       s_unres (after_rejects c st' hs) =
+         Some (filter (fun x => negb (memN x (map (fun h => o_id (obj_of st' h)) hs))) u) /\
+       s_ready (after_rejects c st' hs) = true /\
+       ((forall b, In b u -> exists h, In h hs /\ lookup b (e_proc es) = Some h) ->
+        step c (after_rejects c st' hs) OHealth = (after_rejects c st' hs, RHealth true (Some 0) true, []))) /\
+    (forall b h, In b u -> lookup b (e_proc es) = Some h -> step c st' (OAccept h) = (st', RErr eParentFailed, [])).
+Proof.
+  intros c Q ops t st es tr HW Hpl HR HG Hof.
+  destruct (handover_finish c Q ops t st es tr HW Hpl HR HG Hof) as (st' & u & evs2 & A & B & C & F).
+  exists u. rewrite A. cbn [fst]. split; [exact (f_u _ _ _ F)|]. exact (handover_health c es st' u F).
+Qed.
+Print Assumptions C21_health_partial.
+
+(* KNOWN FINDING: an engine-contract-respecting history (accept block 1; reject its sibling 2;
+   FinishStateSync before the engine rejects 2's processing child 3) in which FinishStateSync fails
+   with `not found` and leaves the VM not ready although the last accepted block was already moved:
+   the property's "whenever sync finishes" is refuted without the [orphan_free] guard. *)
+Theorem C21_finish_refuted : exists c Q ops t st es tr,
+  1 <= c_W c /\ plain_ops ops = true /\
+  erun c Q (init_state c) (init_estate c) ops = Some (st, es, tr) /\
+  eguard Q es (OFinishSync t) = true /\ orphan_free es = false /\
+  snd (fst (step c st (OFinishSync t))) = RErr eNotFound /\
+  s_ready (fst (fst (step c st (OFinishSync t)))) = false.
+Proof.
+  destruct (erun kf_cfg 1 (init_state kf_cfg) (init_estate kf_cfg) kf_ops) as [[[st es] tr]|] eqn:E; [|vm_compute in E; discriminate].
+  exists kf_cfg, 1, kf_ops, 0, st, es, tr. vm_compute in E. injection E as <- <- <-. vm_compute. repeat split; discriminate.
+Qed.
+Print Assumptions C21_finish_refuted.
+
+(* ---- non-vacuity ---- *)
 Example C21_engine_ok_example :
   engine_ok (mkCfg 2 2 false) 1
     [OStartSync 0; OParseNew 0 false; OVerify 2; OParseNew 0 true; OVerify 3; OParseNew 2 false; OVerify 4;
      OAccept 2; OFinishSync 0; OHealth; OReject 3; OReject 4; OHealth] = true.
 Proof. vm_compute. reflexivity. Qed.
+
+(* the hypotheses of the _partial theorems hold for a history with a valid accepted block, an
+   invalid processing sibling and its processing child (both unresolved), finish behind the tip *)
+Definition ex_ops : list op :=
+  [OStartSync 0; OParseNew 0 false; OVerify 2; OParseNew 0 true; OVerify 3; OParseNew 2 false; OVerify 4;
+   OParseNew 1 false; OVerify 5; OAccept 2].
+Example C21_partial_nonvacuous :
+  plain_ops ex_ops = true /\
+  match erun (mkCfg 2 2 false) 1 (init_state (mkCfg 2 2 false)) (init_estate (mkCfg 2 2 false)) ex_ops with
+  | Some (st, es, _) =>
+      eguard 1 es (OFinishSync 0) = true /\ orphan_free es = true /\
+      snd (fst (step (mkCfg 2 2 false) st (OFinishSync 0))) = RUnit /\
+      s_unres (fst (fst (step (mkCfg 2 2 false) st (OFinishSync 0)))) = Some [2; 3]
+  | None => False
+  end.
+Proof. vm_compute. repeat split. Qed.
+(* the same from a ready VM that accepted a block in normal operation before the sync started *)
+Example C21_partial_nonvacuous_ready :
+  let c := mkCfg 2 2 true in
+  let ops := [OParseNew 0 false; OVerify 1; OAccept 1; OProcess; OStartSync 1; OParseNew 1 false; OVerify 3; OAccept 3;
+              OParseNew 2 true; OVerify 4] in
+  plain_ops ops = true /\
+  match erun c 1 (init_state c) (init_estate c) ops with
+  | Some (st, es, _) => eguard 1 es (OFinishSync 1) = true /\ orphan_free es = true /\
+                        snd (fst (step c st (OFinishSync 1))) = RUnit
+  | None => False
+  end.
+Proof. vm_compute. repeat split. Qed.
